@@ -172,7 +172,7 @@ def one_analysis(rec, seedt, params):
     for q in range(nreq):
         by = str(rng.choice(["L", "fres"]))
         Lreq = int(rng.choice([1, 2, 7, 64, N, int(rng.integers(1, N + 1))]))
-        Lreq = min(Lreq, N if not cuda else 128)
+        Lreq = min(Lreq, N, 128 if cuda else N)
         fk = str(rng.choice(["grid", "frac", "zero", "nyq", "planbin"]))
         if fk == "grid":
             freq = fs * int(rng.integers(0, Lreq // 2 + 1)) / Lreq
